@@ -1,8 +1,8 @@
 (* Props/C09.v — C09: multiply, saturating, packed, bit-field instructions (representative classes).
    Statements only; proofs in Proofs/ArithProofs.v. *)
 From Coq Require Import ZArith Bool List.
-From ArmV Require Import Lib.PyZ Lib.Monad Lib.Machine Spec.Pseudocode Spec.Arch Spec.MachineView Spec.Arith
-  Proofs.StateLemmas Proofs.CondProofs Proofs.GuardProofs Proofs.BankProofs Proofs.MachineOps Proofs.DPLemmas Proofs.ArithProofs.
+From ArmV Require Import Lib.PyZ Lib.Monad Lib.Machine Spec.Pseudocode Spec.Arch Spec.MachineView Spec.Arith Spec.Arith2
+  Proofs.StateLemmas Proofs.CondProofs Proofs.GuardProofs Proofs.BankProofs Proofs.MachineOps Proofs.DPLemmas Proofs.ArithProofs Proofs.ArithProofs2.
 From Gen Require Import enums core exec.
 Import ListNotations.
 Open Scope Z_scope.
@@ -38,3 +38,45 @@ Theorem C09_BFI_refuted : exists rd rn lsbit msbit, 0 <= lsbit <= msbit /\ msbit
   insert rd msbit lsbit (bits rn msbit lsbit) <> insert rd msbit lsbit (bits rn (msbit - lsbit) 0).
 Proof. exact Bfi_refuted. Qed.
 Print Assumptions C09_BFI_refuted.
+
+(* further classes (Spec/Arith2.v), each for every operand value, flag state and mode *)
+Theorem C09_MLA cfg instr setflags m a d n s : ictx cfg s -> cond_holds s -> 0 <= m <= 14 -> 0 <= a <= 14 -> 0 <= d <= 14 -> 0 <= n <= 14 ->
+  Mla_execute cfg instr setflags m a d n s = Ok tt (Mla_sem (cfg_arch_version cfg) s setflags m a d n).
+Proof. exact (Mla_ok cfg instr setflags m a d n s). Qed.
+Print Assumptions C09_MLA.
+Theorem C09_MLS cfg instr m a d n s : ictx cfg s -> cond_holds s -> 0 <= m <= 14 -> 0 <= a <= 14 -> 0 <= d <= 14 -> 0 <= n <= 14 ->
+  Mls_execute cfg instr m a d n s = Ok tt (Mls_sem (cfg_arch_version cfg) s m a d n).
+Proof. exact (Mls_ok cfg instr m a d n s). Qed.
+Print Assumptions C09_MLS.
+Theorem C09_SMULxy cfg instr m_high n_high m d n s : ictx cfg s -> cond_holds s -> 0 <= m <= 14 -> 0 <= d <= 14 -> 0 <= n <= 14 ->
+  Smul_execute cfg instr m_high n_high m d n s = Ok tt (Smul_sem (cfg_arch_version cfg) s m_high n_high m d n).
+Proof. exact (Smul_ok cfg instr m_high n_high m d n s). Qed.
+Print Assumptions C09_SMULxy.
+Theorem C09_UMAAL cfg instr m dhi dlo n s : ictx cfg s -> cond_holds s -> 0 <= m <= 14 -> 0 <= dhi <= 14 -> 0 <= dlo <= 14 -> 0 <= n <= 14 ->
+  Umaal_execute cfg instr m dhi dlo n s = Ok tt (Umaal_sem (cfg_arch_version cfg) s m dhi dlo n).
+Proof. exact (Umaal_ok cfg instr m dhi dlo n s). Qed.
+Print Assumptions C09_UMAAL.
+Theorem C09_UMULL cfg instr setflags m dhi dlo n s : ictx cfg s -> cond_holds s -> 0 <= m <= 14 -> 0 <= dhi <= 14 -> 0 <= dlo <= 14 -> 0 <= n <= 14 ->
+  Umull_execute cfg instr setflags m dhi dlo n s = Ok tt (Umull_sem (cfg_arch_version cfg) s setflags m dhi dlo n).
+Proof. exact (Umull_ok cfg instr setflags m dhi dlo n s). Qed.
+Print Assumptions C09_UMULL.
+Theorem C09_UMLAL cfg instr setflags m dhi dlo n s : ictx cfg s -> cond_holds s -> 0 <= m <= 14 -> 0 <= dhi <= 14 -> 0 <= dlo <= 14 -> 0 <= n <= 14 ->
+  Umlal_execute cfg instr setflags m dhi dlo n s = Ok tt (Umlal_sem (cfg_arch_version cfg) s setflags m dhi dlo n).
+Proof. exact (Umlal_ok cfg instr setflags m dhi dlo n s). Qed.
+Print Assumptions C09_UMLAL.
+Theorem C09_SMULL cfg instr setflags m dhi dlo n s : ictx cfg s -> cond_holds s -> 0 <= m <= 14 -> 0 <= dhi <= 14 -> 0 <= dlo <= 14 -> 0 <= n <= 14 ->
+  Smull_execute cfg instr setflags m dhi dlo n s = Ok tt (Smull_sem (cfg_arch_version cfg) s setflags m dhi dlo n).
+Proof. exact (Smull_ok cfg instr setflags m dhi dlo n s). Qed.
+Print Assumptions C09_SMULL.
+Theorem C09_SMLAL cfg instr setflags m dhi dlo n s : ictx cfg s -> cond_holds s -> 0 <= m <= 14 -> 0 <= dhi <= 14 -> 0 <= dlo <= 14 -> 0 <= n <= 14 ->
+  Smlal_execute cfg instr setflags m dhi dlo n s = Ok tt (Smlal_sem (cfg_arch_version cfg) s setflags m dhi dlo n).
+Proof. exact (Smlal_ok cfg instr setflags m dhi dlo n s). Qed.
+Print Assumptions C09_SMLAL.
+Theorem C09_USAD8 cfg instr m d n s : ictx cfg s -> cond_holds s -> 0 <= m <= 14 -> 0 <= d <= 14 -> 0 <= n <= 14 ->
+  Usad8_execute cfg instr m d n s = Ok tt (Usad8_sem (cfg_arch_version cfg) s m d n).
+Proof. exact (Usad8_ok cfg instr m d n s). Qed.
+Print Assumptions C09_USAD8.
+Theorem C09_QSUB cfg instr m d n s : ictx cfg s -> cond_holds s -> 0 <= m <= 14 -> 0 <= d <= 14 -> 0 <= n <= 14 ->
+  Qsub_execute cfg instr m d n s = Ok tt (Qsub_sem (cfg_arch_version cfg) s m d n).
+Proof. exact (Qsub_ok cfg instr m d n s). Qed.
+Print Assumptions C09_QSUB.
